@@ -95,7 +95,7 @@ var plans = map[string]*plan{
 	},
 	"C04": {
 		ID: "C04", Engine: "B", Level: "exploration",
-		Stages: []stage{{"C04.nofault", 100, 2500}, {"C04", 260, 9000}},
+		Stages: []stage{{"C04.nofault", 100, 2500}, {"C04.stall", 48, 1500}, {"C04", 260, 9000}},
 		Rule:   "history built and pushed from one clone (as C03, fault-free), then a second clone (GIT_LFS_SKIP_SMUDGE on/off, any branch) and 1-6 operations: git lfs fetch [ref] with -I/-X, fetch --all, git lfs pull with -I/-X, git lfs checkout, git checkout of other refs; before each a tape-chosen subset of local objects is deleted; before pull/checkout a tape-chosen set of tracked files is edited, deleted, replaced by another valid pointer, by look-alike text, reset to the recorded pointer (also read-only); server faults keyed by request (batch/GET 4xx/5xx, per-object errors, body bit flip / prefix / extra / other object / read error). Every scenario is non-trivial; distinct = distinct choice trace + process outcomes.",
 		Real:   realB, Stub: stubB,
 		Assume: []string{"include/exclude patterns are limited to three simple forms whose meaning the harness computes itself", "a deleted working-tree file being recreated is not judged", "reference stores (alternates) are not covered by this check"},
